@@ -370,10 +370,13 @@ class FitSim(object):
                 raise NotApplicable("size")
             s = RefSource(None, ax, "matrix", a["rel"], err=ev, mat=M, mtype=a["mtype"])
         self.ref.sources.append((s, a["ref"]))
+        self._prev_implicit_gone = self.ref.implicit_gone
+        self.ref.implicit_gone = True  # the documented chi2-without-errors stand-in ends with the first declared source (one-way in kafe2)
         return s
 
     def _undeclare(self):
         self.ref.sources.pop()
+        self.ref.implicit_gone = getattr(self, "_prev_implicit_gone", self.ref.implicit_gone)
 
     # -- one public mutator
     def apply(self, op):
